@@ -250,7 +250,7 @@ def register(PROPS, COMPONENTS):
         lean_files=["ConcVerif/Props/C07.lean", "ConcVerif/Props/C07_lr.lean", "ConcVerif/Props/C07_tripwire.lean",
                     "ConcVerif/Props/C07_deferred.lean", "ConcVerif/Props/C07_trigger.lean", "ConcVerif/Props/C07_rcu.lean",
                     "ConcVerif/Props/C07_cow.lean", "ConcVerif/Props/C07_soh.lean", "ConcVerif/Props/C07_deferred_obj.lean",
-                    "ConcVerif/Props/C07_dobj.lean"],
+                    "ConcVerif/Props/C07_dobj.lean", "ConcVerif/Props/C07_dd.lean"],
         components=names, stage="B", pre=selftest_hb,
         level_text="Lean 4 theorems (kernel-checked; any number of threads, locations and events) over a generic event model of "
                    "mutex / shared-mutex / condition-variable / atomic (with the memory order written in the source) / plain / "
@@ -336,11 +336,15 @@ def register(PROPS, COMPONENTS):
                  "through its own last critical section, C07_soh_*), DelayedObjects (the four maps under promiseLock, the destructor's "
                  "late accesses ordered through its own acquisition, every set_value under the lock, C07_dobj_*; the publication "
                  "set_value -> future::get with promise/future trusted as a release/acquire pair is C07_dobj_publication_partial: the "
-                 "model enables the consumer's `got` from the setter's lock acquisition, not from its set_value event), TriggerVariable (store -> load edge of both flags and "
+                 "model enables the consumer's `got` from the setter's lock acquisition, not from its set_value event), DelayedDestructor (the vector under destructionLock while the container is alive: lockset, every "
+                 "conflicting pair ordered, user code runs with the lock free, C07_dd_*; the destructor takes no lock, exactly as "
+                 "the code, so its accesses are race free only when the client orders the last users before it - joins or an own "
+                 "locked call - C07_dd_joined_partial / C07_dd_vector_partial, and C07_dd_unordered_dtor_races shows the hypothesis "
+                 "cannot be dropped; the harness joins before destroying), TriggerVariable (store -> load edge of both flags and "
                  "publication through trigger()/wait(), C07_trigger_*; the model has no client-data events, so the statement is "
                  "about the positions before the store / after the load)",
                  "covered through the checker on OBSERVED traces only (raceFree + its soundness, every run): "
-                 "DelayedDestructor, the read->write half of "
+                 "DelayedDestructorSingleThread (no lock by design), the read->write half of "
                  "the TripWire client data",
                  "cow_guarded: C07_cow_destroy_after_snapshot is relative to the control-block edges (the destruction of a "
                  "snapshot handle happens-before the destruction of the managed object by the last owner: libstdc++'s use-count "
